@@ -285,7 +285,9 @@ func (c *SessionCache) InvalidateExpired() int {
 	count := 0
 
 	for id, entry := range c.sessions {
-		if !entry.expiration.IsZero() && now.After(entry.expiration) {
+		// Expiration() takes the entry lock: RenewLease may be rewriting the
+		// expiry from a connection that is resuming this session right now.
+		if exp := entry.Expiration(); !exp.IsZero() && now.After(exp) {
 			delete(c.sessions, id)
 			count++
 		}
@@ -319,8 +321,8 @@ func (c *SessionCache) DebugDump() string {
 	b.WriteString("sessions:\n")
 	for id, entry := range c.sessions {
 		exp := "never"
-		if !entry.expiration.IsZero() {
-			exp = entry.expiration.Format(time.RFC3339Nano)
+		if t := entry.Expiration(); !t.IsZero() {
+			exp = t.Format(time.RFC3339Nano)
 		}
 		fmt.Fprintf(&b, "- id=%s addr=%s tag=%s lease=%s exp=%s\n", id, entry.addr, entry.tag, entry.lease, exp)
 	}
